@@ -174,7 +174,7 @@ ASSUMPTIONS = [
     'broadcasts after dropping leading 1-dims, casts unsafely, later duplicates win); checked against numpy 2.5 on '
     'every run by the correspondence, not proved',
     'string <-> number casts, object dtype, structured dtypes, NaN/inf, 0-d array values for per-atom properties and '
-    'numpy\'s overlap hazard of 1-D boolean assignment are outside the model (Err.unmodelled: the driver leaves the state '
+    'a singular box are outside the model (Err.unmodelled: the driver leaves the state '
     'untouched and the harness skips the operation; never produced by the documented grammar on numeric/str columns)',
     'float cells are exact rationals in the model: the generated values are dyadic and the boxes dyadic, so that '
     'relative->Cartesian conversion is exact in double arithmetic',
@@ -2562,9 +2562,8 @@ def gen_valid_op(rng, W, O, OS, k):
             rng.shuffle(pool)
             chosen = set(pool[:m])
             ix = ['K', [i in chosen for i in range(n)]]
-            ta, da = A[h], A[src]
-            if any(np.shares_memory(ta.view[kk], da.view[kk]) for kk in ta.view):
-                ix = ['L', sorted(chosen)]       # numpy's 1-D boolean assignment is not overlap-safe
+            # (a donor overlapping the target in memory is fine for every index kind since fix c2a392c: numpy's 1-D
+            #  boolean / unequal-stride slice assignment is not overlap-safe, Atoms.__setitem__ copies such a donor)
         ix = vary_index(rng, ix)
         if m == n and rng.random() < 0.3 and kind in ('pseta', 'spseta'):
             ix = None
@@ -2786,6 +2785,25 @@ def matrix_extra(rng, base, mksys, box, donor):
             out.append((f'patype:{key}:{cls}{trail}:t={t}', [base, {'op': 'patype', 'o': 'a0', 'key': key, 'val': v, 't': t},
                                                             {'op': 'pget', 'o': 'a0', 'key': key, 'ix': None},
                                                             {'op': 'natypes', 'o': 'a0'}]))
+    # ---- the donor is a VIEW of the target (aliasing between a slice and its parent): rows stay aligned for every
+    #      index kind and stride (numpy alone protects neither a 1-D boolean nor an unequal-stride 1-D slice assignment)
+    views = [('head', ['S', 0, 3, None]), ('every-other', ['S', None, None, 2]), ('tail-rev', ['S', None, 1, -1]),
+             ('middle', ['S', 1, 4, None])]
+    targets = [('stride2', ['S', None, None, 2]), ('mask', ['K', [True, False, True, False, True]]), ('list', ['L', [0, 2, 4]]),
+               ('shift', ['S', 2, 5, None]), ('rev-stride2', ['S', None, None, -2]), ('head', ['S', 0, 3, None]),
+               ('np-array', ['L', [4, 1, 3], 'np']), ('mask-list', ['K', [False, True, True, True, False], 'list'])]
+    for vname, vix in views:
+        for tname, tix in targets:
+            for kind in ('seti', 'pseta', 'ixset'):
+                op = {'seti': {'op': 'seti', 'o': 'a0', 'ix': tix, 'src': 'a3'}, 'pseta': {'op': 'pseta', 'o': 'a0', 'ix': tix, 'src': 'a3'},
+                      'ixset': {'op': 'ixset', 's': 's1', 'ix': tix, 'src': ['a', 'a3']}}[kind]
+                if kind != 'seti' and (len(vname) + len(tname)) % 2:
+                    continue
+                out.append((f'overlap:{kind}:{vname}->{tname}', [base, mksys, {'op': 'geti', 'o': 'a0', 'ix': vix, 'id': 3}, op,
+                                                                {'op': 'pget', 'o': 'a0', 'key': 'p0', 'ix': None},
+                                                                {'op': 'pget', 'o': 'a3', 'key': 'p1', 'ix': None}]))
+    out.append(('overlap:self-reversed', [base, {'op': 'seti', 'o': 'a0', 'ix': ['S', None, None, -1], 'src': 'a0'},
+                                          {'op': 'pget', 'o': 'a0', 'key': 'p0', 'ix': None}]))
     # ---- read -> write -> the same read again (memoised / cached reads)
     reads = [('pget', {'op': 'pget', 'o': 'a0', 'key': 'p0', 'ix': None}), ('pget-ix', {'op': 'pget', 'o': 'a0', 'key': 'p1', 'ix': ['S', 1, 4, None]}),
              ('spget-scaled', {'op': 'spget', 's': 's1', 'key': 'p1', 'ix': None, 'scale': True}),
